@@ -6,6 +6,7 @@ import (
 	"fmt"
 	"strings"
 
+	"github.com/virus-evolution/gofasta/pkg/encoding"
 	"github.com/virus-evolution/gofasta/pkg/fastaio"
 	"verif/simrt"
 )
@@ -17,6 +18,8 @@ import (
 // reader with every chunking mode. Valid files: records must equal the model under every
 // layout and in every reader. Arbitrary byte streams (structured mutations of valid files,
 // truncations, injected read errors): the run must end by returning - never a panic, never a hang.
+
+var decodeTable = encoding.MakeDecodingArray()
 
 var readers = []string{"reader:plain", "reader:encode", "reader:score", "reader:list"}
 
@@ -41,8 +44,12 @@ func runReader(c *Case, o *Opts, env *ioEnv, out *simWriter) error {
 	hard := o.HardGaps
 	var sb strings.Builder
 	emitE := func(r fastaio.EncodedFastaRecord, scored bool) {
-		dec := r.Decode()
-		fmt.Fprintf(&sb, "%d\t%s\t%s\t%s", r.Idx, r.ID, r.Description, dec.Seq)
+		// (FastaRecord.Decode concatenates strings and is quadratic in the sequence length; same table, linear)
+		var db strings.Builder
+		for _, b := range r.Seq {
+			db.WriteString(decodeTable[b])
+		}
+		fmt.Fprintf(&sb, "%d\t%s\t%s\t%s", r.Idx, r.ID, r.Description, db.String())
 		if scored {
 			fmt.Fprintf(&sb, "\t%d\t%d,%d,%d,%d", r.Score, r.Count_A, r.Count_C, r.Count_G, r.Count_T)
 		}
@@ -245,10 +252,23 @@ func genC16(r *Rand, tier string, ord int) *Trial {
 	fam := ord % 4
 	lay := genLayout(r)
 	text := a.FASTA(lay)
+	long := fam <= 1 && mix(uint64(ord), 0x16)%1200 == 7 // (hashed, so that the expensive trials spread over all worker shards)
+	if long {
+		// layout independence includes line width: a sequence on one very long line vs the same wrapped
+		w = r.PickInt(65535, 65536, 65537, 66000)
+		ref = genRefSeq(r, w)
+		a = genAln(r, ref, alnSpec{W: w, N: 2, Prof: profN, SNP: 0.01, Prefix: "s"})
+		lay = Layout{}
+		text = a.FASTA(lay)
+	}
 	switch {
 	case fam <= 1:
 		t.Kind = "valid"
 		lay2 := genLayout(r)
+		if long {
+			t.Kind = "valid-long-line"
+			lay2 = Layout{Width: 60}
+		}
 		lay2.Desc, lay2.Sep, lay2.Lead = lay.Desc, lay.Sep, lay.Lead
 		t.Case = Case{Cmd: "readers", Files: map[string]string{"fasta": text, "fasta2": a.FASTA(lay2)}}
 		t.Params["names"] = strings.Join(a.Names, ",")
@@ -258,7 +278,12 @@ func genC16(r *Rand, tier string, ord int) *Trial {
 			hs[i] = lay.Header(i, n)
 		}
 		t.Params["headers"] = strings.Join(hs, "\x00")
-		t.Runs = genRunCfgs(r, 8)
+		t.Runs = genRunCfgs(r, 10)
+		if long {
+			for i := range t.Runs {
+				t.Runs[i].Chunk = []int{0, 3}[i%2] // byte-wise delivery of 150 kB would only cost time
+			}
+		}
 	case fam == 2:
 		m := c16Mutations[(ord/4)%len(c16Mutations)]
 		t.Kind = "mutated:" + m
@@ -274,7 +299,7 @@ func genC16(r *Rand, tier string, ord int) *Trial {
 		}
 	}
 	for i := range t.Runs {
-		if t.Runs[i].Chunk == 0 && r.P(0.7) {
+		if t.Runs[i].Chunk == 0 && r.P(0.7) && !long {
 			t.Runs[i].Chunk = r.Range(1, 4)
 		}
 	}
@@ -285,7 +310,7 @@ func genC16(r *Rand, tier string, ord int) *Trial {
 func checkC16(t *Trial, ctx *Ctx) *Failure {
 	hard := t.Case.Opts.HardGaps
 	switch {
-	case t.Kind == "valid":
+	case strings.HasPrefix(t.Kind, "valid"):
 		names := strings.Split(t.Params["names"], ",")
 		seqs := strings.Split(t.Params["seqs"], ",")
 		descs := strings.Split(t.Params["headers"], "\x00")
@@ -294,8 +319,26 @@ func checkC16(t *Trial, ctx *Ctx) *Failure {
 		for i := range t.Runs {
 			rd := readers[i%4]
 			file := "fasta"
-			if i >= 4 {
+			if i >= 4 && i < 8 || i == 9 {
 				file = "fasta2"
+			}
+			if t.Kind == "valid-long-line" && (i == 5 || i == 6 || i == 7 || i == 9) {
+				continue // gofasta's own Decode/Degap are quadratic in the row length: keep the expensive trials few
+			}
+			if i >= 8 {
+				// the fifth scanner: variants' reference finder must accept the file and find the last record
+				rd = "variants.findReference"
+				vc := Case{Cmd: "variants", Files: map[string]string{"msa": t.Case.Files[file], "anno": "##gff-version 3\n##FASTA\n>x\nACGT\n"}, Opts: Opts{RefID: names[len(names)-1], AnnoSuffix: "gff", Start: -1, End: -1}}
+				res := ctx.Run(t, i, &vc)
+				if res.Out.Kind != simrt.Returned {
+					t.Runs = t.Runs[:i+1]
+					return &Failure{Class: "C16/" + res.Out.Signature() + "{valid," + rd + "}", Detail: res.Describe()}
+				}
+				if res.Err != nil {
+					t.Runs = t.Runs[:i+1]
+					return &Failure{Class: "C16/valid-file-rejected{" + rd + "}", Detail: fmt.Sprintf("layout %s (sequence width %d): %v", file, len(seqs[0]), res.Err)}
+				}
+				continue
 			}
 			// the scoring reader is only ever used with soft gaps (closest); the completeness score of a
 			// hard gap is not defined by the statement, so it is not asserted
